@@ -119,7 +119,7 @@ LAT = lattice()
 
 BINOPS = ["add", "sub", "mul", "div", "idiv", "mod", "pow", "lt", "le", "eq", "gt", "ge", "ne",
           "band", "bor", "bxor", "shl", "shr", "fmod", "ult", "max", "min"]
-UNOPS = ["unm", "bnot", "abs", "floor", "ceil", "tointeger", "modf", "mtype", "keytype"]
+UNOPS = ["unm", "bnot", "abs", "floor", "ceil", "tointeger", "modf", "mtype", "keytype", "randok"]
 NOMODEL = {"pow"}          # Go-internal consistency only
 
 
@@ -563,6 +563,11 @@ def check_str(ck, gvh, oracle, tier):
         if g["I"] != m["I"]:
             report("I:" + tag, "runtime.ToInt(%r) = %s on the implementation, the manual (string -> number -> integer) gives %s" % (text, g["I"], m["I"]),
                    lines[i].split(" ", 1)[1], impl[i], model[i])
+        # math functions on a string argument: converted by the same rule (math.modf used to reject strings)
+        for fld, fn in (("MF", "math.modf"), ("FL", "math.floor"), ("AB", "math.abs")):
+            if g[fld] != m[fld]:
+                report(fld + ":" + tag, "%s(%r) = %s on the implementation, the manual (string converted to a number) gives %s" % (fn, text, g[fld], m[fld]),
+                       lines[i].split(" ", 1)[1], impl[i], model[i])
         if valid:
             go = g["L"]
             if go != S:
